@@ -157,9 +157,45 @@ fn replay_doc(s: &mut Summary, c: &Value) {
     s.eval_if(!elems.is_empty(), &format!("{c}"));
 }
 
+/// Snapshots and deltas of many elements (every kind mixed, the same URI more than once, in the order given): written and parsed
+/// back they are the same elements in the same order - also past 64, 256 and 1000 of them.
+fn long_documents(s: &mut Summary) {
+    let session = uuid::Uuid::from_u128(0x1234_5678_9abc_def0_1122_3344_5566_7788);
+    for n in [1usize, 2, 63, 64, 65, 255, 256, 257, 1000, 1025] {
+        let r = guarded(|| -> Result<(), String> {
+            let uri = |i: usize| uri::Rsync::from_str(&format!("rsync://example.org/mod/d{}/o{}.roa", i % 7, if i % 9 == 8 { i - 1 } else { i })).unwrap();
+            let data = |i: usize| Bytes::from(format!("object {i} {}", "x".repeat(i % 50)).into_bytes());
+            let pubs: Vec<PublishElement> = (0..n).map(|i| PublishElement::new(uri(i), data(i))).collect();
+            let snap = Snapshot::new(session, 5, pubs);
+            let mut xml = Vec::new();
+            snap.write_xml(&mut xml).map_err(|e| e.to_string())?;
+            let back = Snapshot::parse(xml.as_slice()).map_err(|e| format!("snapshot of {n} elements does not parse back: {e}"))?;
+            if back != snap { return Err(format!("snapshot of {n} elements parses back with {} elements / differently", back.elements().len())); }
+            let els: Vec<DeltaElement> = (0..n).map(|i| match i % 3 {
+                0 => PublishElement::new(uri(i), data(i)).into(),
+                1 => UpdateElement::new(uri(i), Hash::from_data(&data(i + (i % 2))), data(i)).into(),
+                _ => WithdrawElement::new(uri(i), Hash::from_data(&data(i))).into(),
+            }).collect();
+            let delta = Delta::new(session, 6, els);
+            let mut xml = Vec::new();
+            delta.write_xml(&mut xml).map_err(|e| e.to_string())?;
+            let back = Delta::parse(xml.as_slice()).map_err(|e| format!("delta of {n} elements does not parse back: {e}"))?;
+            if back != delta { return Err(format!("delta of {n} elements parses back with {} elements / differently", back.elements().len())); }
+            Ok(())
+        });
+        match r {
+            Ok(Ok(())) => {}
+            Ok(Err(m)) => s.violation("roundtrip:long", m, json!({"elements": n})),
+            Err(m) => s.violation("panic", m, json!({"elements": n})),
+        }
+        s.evals(1);
+    }
+}
+
 pub fn replay(args: &[String]) {
     let cases = read_cases(&args[0]);
     let mut s = Summary::new();
+    long_documents(&mut s);
     for c in &cases {
         if c["op"] == "bulk" { replay_bulk(&mut s, c); } else { replay_doc(&mut s, c); }
         if s.samples.len() < 3 && s.evaluations % 40009 == 17 {
